@@ -366,6 +366,8 @@ def step_(w: World, op: tuple) -> list[tuple[str, str]]:
             out.append(("exc.unexpected", f"spec accepts, real code raised {type(r_res).__name__}: {r_res}"))
             if view.obs(w.tree) != before:
                 out.append(("refuse.changed", f"raised {type(r_res).__name__} and the tree changed: {view.fmt(w.tree)}; count={w.tree.count}"))
+                for v in view.wf_violations(w.tree):  # an exception does not excuse a broken invariant (C01/C02/C03)
+                    out.append(("wf." + v.split(":")[0], v))
             # resynchronise is impossible; caller must stop this history
         else:
             out += compare(w)
@@ -396,10 +398,10 @@ def check_result(w: World, op, m_res, r_res) -> list[tuple[str, str]]:
 
 # ------------------------------------------------------------------ enumeration of ops
 def befores(w: World, p: int, *, extra_foreign=True) -> list:
-    """Every `before` value for target parent p: None, False, True, every index 0..len,
-    every child, and one node that is not a child (documented-invalid)."""
+    """Every `before` value for target parent p: None, False, True, every index 0..len, one index behind the
+    end (len+2: appends, like list.insert), every child, and one node that is not a child (documented-invalid)."""
     ch = [i for i, r in enumerate(w.spec.nodes) if r[0] == p]
-    out = [None, False, True] + [("i", k) for k in range(len(ch) + 1)] + [("n", c) for c in ch]
+    out = [None, False, True] + [("i", k) for k in range(len(ch) + 1)] + [("i", len(ch) + 2)] + [("n", c) for c in ch]
     if extra_foreign:
         foreign = [i for i in range(len(w.spec.nodes)) if i not in ch]
         if foreign:
